@@ -4,35 +4,66 @@ import (
 	"testing"
 
 	"github.com/dolthub/go-mysql-server/vh/internal/fx"
+	"github.com/dolthub/go-mysql-server/vh/internal/kf"
 	"github.com/dolthub/go-mysql-server/vh/internal/stats"
 )
 
-// TestC05Known is a regression witness: MOD(-2,-2) is -0, the select list says -0 IN (1,0) is
-// TRUE, and before /repo 4fbce1b30 (finding C07-hashin-negzero, status fixed) the WHERE clause
-// (hashed IN list) dropped the row. The witness must satisfy the property.
+// witness: after setup, the rows of "SELECT cols FROM from WHERE p" must be exactly the rows of
+// "SELECT cols, p FROM from" whose p is TRUE. id "" marks a regression witness of a repaired
+// finding (must hold); otherwise: id listed => must still misbehave (else reported as stale, not
+// as a failure); id not listed => must hold.
+type witness struct {
+	id, name   string
+	setup      []string
+	cols, from string
+	p          string
+}
+
+var witnesses = []witness{
+	// MOD(-2,-2) is -0; before /repo 4fbce1b30 (C07-hashin-negzero, fixed) the hashed IN list of
+	// the filter did not find -0 among (1,0) although -0 IN (1,0) is TRUE in the select list
+	{"", "hashin-negzero-1", []string{"CREATE TABLE t1 (c0 INT NOT NULL, PRIMARY KEY (c0))", "INSERT INTO t1 VALUES (-2),(3),(1)"},
+		"x1.c0", "t1 x1", "MOD(x1.c0,-2) IN (1,0)"},
+	{"", "hashin-negzero-2", []string{"CREATE TABLE t1 (c0 INT NOT NULL, PRIMARY KEY (c0))", "INSERT INTO t1 VALUES (-2),(3),(1)"},
+		"x1.c0", "t1 x1", "MOD(x1.c0,2) NOT IN (1,3)"},
+	// the conjunct reads x1 only inside the correlated subquery; the planner attaches it to the
+	// join of x3 and x2, where the subquery's outer reference reads a column of x3
+	{idCorrSub, "correlated-subquery", []string{"CREATE TABLE t0 (c0 INT, c1 INT)", "INSERT INTO t0 VALUES (0,NULL),(NULL,NULL),(NULL,1),(NULL,NULL),(NULL,NULL),(NULL,1),(1,NULL)"},
+		"x1.c0, x2.c0, x3.c0", "t0 x1 INNER JOIN t0 x2 ON (x1.c0 = x2.c0) CROSS JOIN t0 x3",
+		"(NOT EXISTS (SELECT 1 FROM t0 z1 WHERE z1.c0 < x1.c0)) OR (x3.c0 = x2.c0)"},
+}
+
 func TestC05Known(t *testing.T) {
 	st := stats.New("C05", "known")
 	defer st.Flush()
-	f := fx.New(fx.Opts{})
-	defer f.Close()
-	s := f.NewSession("", "", "")
-	s.MustExec(t.Fatalf, "CREATE TABLE t1 (c0 INT NOT NULL, PRIMARY KEY (c0))", "INSERT INTO t1 VALUES (-2),(3),(1)")
-	for _, p := range []string{"MOD(x1.c0,-2) IN (1,0)", "MOD(x1.c0,2) IN (1,0)", "MOD(x1.c0,2) NOT IN (1,0)"} {
+	for _, w := range witnesses {
 		st.Eval()
-		sel := s.Exec("SELECT x1.c0, (" + p + ") AS v FROM t1 x1")
-		fil := s.Exec("SELECT x1.c0 FROM t1 x1 WHERE (" + p + ")")
-		if !sel.OK() || !fil.OK() {
-			t.Fatalf("witness statements failed: %s / %s", sel, fil)
+		f := fx.New(fx.Opts{})
+		s := f.NewSession("", "", "")
+		s.MustExec(t.Fatalf, w.setup...)
+		sel := s.Exec("SELECT " + w.cols + ", (" + w.p + ") AS v FROM " + w.from)
+		fil := s.Exec("SELECT " + w.cols + " FROM " + w.from + " WHERE (" + w.p + ")")
+		f.Close()
+		if !sel.OK() {
+			t.Fatalf("witness %s: select-list statement failed: %s", w.name, sel)
 		}
 		var want [][]string
 		for _, r := range fx.NormRows(sel.Schema, sel.Rows) {
-			if truth(r[1]) == 1 {
-				want = append(want, r[:1])
+			if n := len(r) - 1; truth(r[n]) == 1 {
+				want = append(want, r[:n])
 			}
 		}
-		if !fx.MultisetEqual(fx.NormRows(fil.Schema, fil.Rows), want) {
-			t.Errorf("regression of C07-hashin-negzero: WHERE %s returns %s but p is TRUE in the select list for %s", p, fil, fx.Show(want))
+		ok := fil.OK() && fx.MultisetEqual(fx.NormRows(fil.Schema, fil.Rows), want)
+		switch {
+		case ok && w.id != "" && kf.Listed(w.id):
+			t.Logf("witness %s of listed finding %s no longer reproduces (stale listing?)", w.name, w.id)
+		case ok:
+			st.NonTrivial(nil, "witness", w.name)
+		case w.id != "" && kf.Suppress(st, w.id):
+			st.NonTrivial(nil, "witness", w.name)
+			t.Logf("known finding %s reproduces: WHERE %s returns %s, p is TRUE in the select list for %s", w.id, w.p, fil, fx.Show(want))
+		default:
+			t.Errorf("witness %s (finding %q not listed as known): WHERE %s returns %s but p is TRUE in the select list for exactly %s", w.name, w.id, w.p, fil, fx.Show(want))
 		}
-		st.NonTrivial(nil, "witness", p)
 	}
 }
